@@ -596,7 +596,10 @@ class HierarchyElement(DiagLayer):
         # determine the set of applicable communication parameters
         cps = [cp for cp in self.comparam_refs if cp.short_name == cp_short_name]
         if protocol_name is not None:
-            cps = [cp for cp in cps if cp.protocol_snref in (None, protocol_name)]
+            # definitions which are specific to the protocol take
+            # precedence, the ones without a protocol are fallbacks
+            specific_cps = [cp for cp in cps if cp.protocol_snref == protocol_name]
+            cps = specific_cps or [cp for cp in cps if cp.protocol_snref is None]
 
         if len(cps) > 1:
             warnings.warn(
